@@ -35,14 +35,16 @@ type opJ struct {
 }
 
 type visoCaseJ struct {
-	Name   string   `json:"name"`
-	Nodes  []nodeJ  `json:"nodes"`
-	Dir    []string `json:"dir"` // directory to turn into an image (relative to the root)
-	Ps3    bool     `json:"ps3,omitempty"`
-	OsFs   bool     `json:"osfs,omitempty"` // open with OsFs + absolute path (as make-iso does)
-	Ops    []opJ    `json:"ops"`
-	Fresh  bool     `json:"fresh,omitempty"`  // run every op on a freshly opened instance
-	Nofile int      `json:"nofile,omitempty"` // run the case with at most this many open file descriptors more than are open now (RLIMIT_NOFILE)
+	Name       string   `json:"name"`
+	Nodes      []nodeJ  `json:"nodes"`
+	Dir        []string `json:"dir"` // directory to turn into an image (relative to the root)
+	Ps3        bool     `json:"ps3,omitempty"`
+	OsFs       bool     `json:"osfs,omitempty"` // open with OsFs + absolute path (as make-iso does)
+	Ops        []opJ    `json:"ops"`
+	Fresh      bool     `json:"fresh,omitempty"`      // run every op on a freshly opened instance
+	Nofile     int      `json:"nofile,omitempty"`     // run the case with at most this many open file descriptors more than are open now (RLIMIT_NOFILE)
+	Tmpfs      bool     `json:"tmpfs,omitempty"`      // build the tree under /dev/shm (if there is one)
+	MemLimitMB int      `json:"memLimitMB,omitempty"` // RLIMIT_AS = current size + this much while the case runs
 
 	Decode    bool     `json:"decode,omitempty"`    // emit a Volume event: the image as decoded by isodec + the tree as walked by the harness
 	TitleID   []string `json:"titleId,omitempty"`   // PS3 mode: the TITLE_ID the script put into PARAM.SFO
@@ -157,7 +159,31 @@ func sequentialImage(f fileLike, limit int64) (data []byte, err error) {
 }
 
 func runVisoCase(c *visoCaseJ, em *emitter, index int) error {
-	base, err := os.MkdirTemp("", "vv-")
+	tmpParent := ""
+	if c.Tmpfs {
+		// a memory file system takes sparse files far larger than ext4 does (2^62 bytes)
+		if st, err := os.Stat("/dev/shm"); err == nil && st.IsDir() {
+			tmpParent = "/dev/shm"
+		}
+	}
+	if c.MemLimitMB > 0 {
+		// the case must not need more than this much additional address space (a runaway allocation ends the process:
+		// reported as a crash of this case, instead of taking the machine down)
+		var old syscall.Rlimit
+		if err := syscall.Getrlimit(syscall.RLIMIT_AS, &old); err == nil {
+			var vm uint64
+			if b, err := os.ReadFile("/proc/self/statm"); err == nil {
+				fmt.Sscan(string(b), &vm)
+				vm *= uint64(os.Getpagesize())
+			}
+			lim := old
+			lim.Cur = vm + uint64(c.MemLimitMB)<<20
+			if (old.Max == ^uint64(0) || lim.Cur < old.Max) && syscall.Setrlimit(syscall.RLIMIT_AS, &lim) == nil {
+				defer syscall.Setrlimit(syscall.RLIMIT_AS, &old)
+			}
+		}
+	}
+	base, err := os.MkdirTemp(tmpParent, "vv-")
 	if err != nil {
 		return err
 	}
